@@ -472,3 +472,14 @@ pub fn stub_string_with_capacity(n: usize) -> String {
 /// and the append models assert that the capacity suffices, so the hint can be dropped. This
 /// removes the (symbolic-size) reallocation path behind `String::extend`.
 pub fn stub_string_reserve(_s: &mut String, _additional: usize) {}
+
+/// `Vec::reserve` for buffers that were created with enough capacity: asserts that no growth is
+/// needed (a reachable growth fails the harness) and thereby cuts the symbolic-size reallocation.
+#[cfg(kani)]
+pub fn stub_vec_reserve_no_growth<T, A: std::alloc::Allocator>(v: &mut Vec<T, A>, additional: usize) {
+    assert!(v.capacity() - v.len() >= additional, "stub_vec_reserve_no_growth: growth needed");
+}
+#[cfg(not(kani))]
+pub fn stub_vec_reserve_no_growth<T>(v: &mut Vec<T>, additional: usize) {
+    v.reserve(additional)
+}
